@@ -802,6 +802,46 @@ func extractGenPropId(f *file, o *out) {
 }
 
 // ---------------------------------------------------------------------------------------------------
+// 2b. which Location methods point the caller's context at their own location
+
+// pointsCtx: does the method body contain, as a top-level statement, `ctx.SetLoc(<recv>)` before the first statement that
+// touches loc.state (directly or through another stateful method)?
+func (f *file) pointsCtx(name string, stateful map[string]bool) (hasCtx bool, points bool) {
+	fd := f.meths[name]
+	recv := f.recv[name]
+	if fd == nil || recv == "" || fd.Type.Params == nil {
+		return false, false
+	}
+	for _, p := range fd.Type.Params.List {
+		for _, n := range p.Names {
+			if n.Name == "ctx" {
+				hasCtx = true
+			}
+		}
+	}
+	if !hasCtx {
+		return false, false
+	}
+	for _, st := range fd.Body.List {
+		if es, ok := st.(*ast.ExprStmt); ok {
+			if c, ok := es.X.(*ast.CallExpr); ok {
+				if se, ok := c.Fun.(*ast.SelectorExpr); ok && se.Sel.Name == "SetLoc" && len(c.Args) == 1 {
+					if x, ok := se.X.(*ast.Ident); ok && x.Name == "ctx" {
+						if a, ok := c.Args[0].(*ast.Ident); ok && a.Name == recv {
+							return true, true
+						}
+					}
+				}
+			}
+		}
+		if f.touchesState(st, recv, stateful) {
+			return true, false
+		}
+	}
+	return true, false
+}
+
+// ---------------------------------------------------------------------------------------------------
 // 3. where the states read the clock that decides expiry, relative to taking the state lock
 
 // isClockRead: `NowSecs()` or `time.Now()...Unix()` (any selector chain rooted at a call of time.Now)
@@ -929,6 +969,22 @@ func main() {
 	fmt.Fprintf(&o.log, "no guard before the first use of loc.state: %s\n", strings.Join(unguarded, " "))
 	o.def("guard calls at the top of every exported `*Location` method (plus searchFacts, searchRules, addFact), in source order, up to the first use of `loc.state`",
 		"def locationGuards : List (String × List String) := [\n"+strings.Join(rows, ",\n")+"]")
+	prow := []string{}
+	for _, n := range names {
+		if !stateful[n] {
+			continue
+		}
+		hasCtx, pts := loc.pointsCtx(n, stateful)
+		if !hasCtx {
+			continue
+		}
+		prow = append(prow, fmt.Sprintf("  (%s, %v)", leanString(n), pts))
+		if !pts {
+			fmt.Fprintf(&o.log, "does NOT point the context at its location before touching the state: %s (%s)\n", n, loc.pos(loc.meths[n]))
+		}
+	}
+	o.def("state-touching `*Location` methods that take a context: does `ctx.SetLoc(loc)` come before the first statement that touches the state? (callers reuse contexts across locations; hooks, actions and timeouts read the location from the context)",
+		"def locationPointsCtx : List (String × Bool) := [\n"+strings.Join(prow, ",\n")+"]")
 	sm := []string{}
 	for n := range stateful {
 		sm = append(sm, n)
